@@ -163,10 +163,7 @@ class Mon:
                 v = self.timeline[k][-1][1]
                 if v != before[k] and v is not None and k in self.latest and self.latest[k] != v:
                     # the flush's write-back landed after a newer write to the key had started
-                    lw = [w for w in self.writes[k] if w["val"] == self.latest[k] and w["kind"] != "init"]
-                    lk = lw[-1]["kind"] if lw else "?"
-                    name = {"put": "put", "delete": "delete"}.get(lk, "direct-write")
-                    self.facts[k].append((t, f"flush-overlaps-{name}", {"op": rec["id"], "wrote": v, "latest": self.latest[k]}))
+                    self.facts[k].append((t, "flush-overlaps-write", {"op": rec["id"], "wrote": v, "latest": self.latest[k]}))
         for ti, tier in enumerate(self.tiers):
             if pre[ti] is None:
                 continue
@@ -176,7 +173,11 @@ class Mon:
                 want = self.latest.get(k)
                 if k not in cached:
                     if rec["kind"] == "delete" and rec["key"] == k:
-                        continue  # a delete supersedes the dirty value
+                        # a delete supersedes the dirty value; but until it lands the backing store may expose a value older than it
+                        dv = rec.get("prev_latest")
+                        if dv is not None and dv not in self.seen_backing[k]:
+                            self.facts[k].append((t, "delete-of-dirty-key-exposes-older-backing-value", {"op": rec["id"], "window_op": rec["id"], "dirty_value": dv, "backing": self.backing.get_sync(k)}))
+                        continue
                     if rec["kind"] == "invall":
                         how = "invalidate_all-with-dirty-keys"
                     elif rec["kind"] in ("inv", "bput", "bdel") and rec["key"] == k:
@@ -187,11 +188,12 @@ class Mon:
                     self.discards.append({"t": t, "key": k, "want": want, "how": how, "op": rec["id"], "tier": tier.label, "reached": reached})
                 elif self.backing.get_sync(k) != want:
                     # dirty flag cleared while the cache holds a value the backing store has not got
-                    self.facts[k].append((t, "flush-overlaps-put", {"op": rec["id"], "backing": self.backing.get_sync(k), "latest": want}))
+                    self.facts[k].append((t, "flush-overlaps-write", {"op": rec["id"], "backing": self.backing.get_sync(k), "latest": want}))
 
     def _record_write(self, rec, strong=True):
         w = {"kind": rec["kind"], "key": rec["key"], "val": rec["val"], "start": rec["start"], "end": None, "strong": strong, "op": rec["id"]}
         self.writes[rec["key"]].append(w)
+        rec["prev_latest"] = self.latest.get(rec["key"])
         self.latest[rec["key"]] = rec["val"]
         return w
 
@@ -353,8 +355,19 @@ class Mon:
             if w["strong"] and w is not x and w["end"] is not None and x["end"] is not None and x["end"] < w["start"] and w["end"] < before
         ]
 
-    def _attribute(self, key, since, until):
-        cands = [f for f in self.facts[key] if since <= f[0] <= until]
+    def _attribute(self, key, since, until, issued=None):
+        issued = until if issued is None else issued
+        cands = []
+        for f in self.facts[key]:
+            if not (since <= f[0] <= until):
+                continue
+            win = f[2].get("window_op") if isinstance(f[2], dict) else None
+            if win is not None:
+                # only explains observations issued while that operation was still in flight
+                e = self.hist[win]["end"]
+                if e is not None and issued > e:
+                    continue
+            cands.append(f)
         if not cands:
             return "unattributed", None
         cands.sort(key=lambda f: f[0])
@@ -391,7 +404,7 @@ class Mon:
             return
         x, sup = best
         wstar = max(sup, key=lambda w: w["start"])
-        shape, info = self._attribute(k, wstar["start"], rec["end"])
+        shape, info = self._attribute(k, wstar["start"], rec["end"], issued=rec["start"])
         if path:
             shape = path
         self.res.count("stale_reads")
